@@ -580,11 +580,13 @@ func (idx *HNSWIndex) searchLayer(query []float32, entryPoint uint32, ef int, la
 	result := newMaxHeap()
 	defer putMaxHeap(result) // Return to pool when done
 
-	// Check entry point BEFORE adding to candidates
+	// The entry point is always explored; it is reported only if it is live.
+	// (A soft-deleted vertex must still be walked through, otherwise removing
+	// the entry point or a hub hides every vertex behind it.)
+	entryDist := idx.distance.Calculate(query, idx.nodes[entryPoint].Vector())
+	heap.Push(candidates, candidate{id: entryPoint, distance: entryDist})
 	if !idx.deletedNodes.Contains(entryPoint) {
-		d := idx.distance.Calculate(query, idx.nodes[entryPoint].Vector())
-		heap.Push(candidates, candidate{id: entryPoint, distance: d})
-		heap.Push(result, candidate{id: entryPoint, distance: d})
+		heap.Push(result, candidate{id: entryPoint, distance: entryDist})
 	}
 	visited.Add(entryPoint)
 
@@ -600,11 +602,6 @@ func (idx *HNSWIndex) searchLayer(query []float32, entryPoint uint32, ef int, la
 		node := idx.nodes[current.id]
 		if layer < len(node.Edges) {
 			for _, neighborID := range node.Edges[layer] {
-				// SOFT DELETE CHECK: Skip deleted neighbors
-				if idx.deletedNodes.Contains(neighborID) {
-					continue
-				}
-
 				if !visited.Contains(neighborID) {
 					visited.Add(neighborID)
 
@@ -612,10 +609,14 @@ func (idx *HNSWIndex) searchLayer(query []float32, entryPoint uint32, ef int, la
 
 					if result.Len() < ef || d < (*result)[0].distance {
 						heap.Push(candidates, candidate{id: neighborID, distance: d})
-						heap.Push(result, candidate{id: neighborID, distance: d})
 
-						if result.Len() > ef {
-							heap.Pop(result)
+						// SOFT DELETE CHECK: deleted neighbors are explored but never reported
+						if !idx.deletedNodes.Contains(neighborID) {
+							heap.Push(result, candidate{id: neighborID, distance: d})
+
+							if result.Len() > ef {
+								heap.Pop(result)
+							}
 						}
 					}
 				}
